@@ -28,6 +28,7 @@
 #include <limits>
 #include <ratio>
 #include <type_traits>
+#include <utility>
 
 // ---------------------------------------------------------------------------------- zoo
 namespace zoo {
@@ -259,6 +260,144 @@ struct WithMembers {
     void f() { }
     int g(int) const noexcept { return 0; }
 };
+// ---- adversarial conversions: the implicit and the explicit form of a conversion disagree, are ambiguous, ref-qualified or deleted
+struct ConvSrc;
+struct ExplDelDst { // copy-initialisation from ConvSrc works (conversion function), direct-initialisation picks the deleted explicit ctor
+    ExplDelDst() = default;
+    explicit ExplDelDst(ConvSrc const&) = delete;
+};
+struct ConvSrc {
+    operator ExplDelDst() const { return ExplDelDst{}; }
+};
+struct AmbSrc;
+struct AmbDst { // converting constructor AND conversion function: ambiguous for copy-initialisation
+    AmbDst() = default;
+    AmbDst(AmbSrc const&) { }
+};
+struct AmbSrc {
+    operator AmbDst() const { return AmbDst{}; }
+};
+struct TwoWayA;
+struct TwoWayB { // mutually convertible (common_type / common_reference ambiguity)
+    TwoWayB() = default;
+    TwoWayB(TwoWayA const&) { }
+};
+struct TwoWayA {
+    TwoWayA() = default;
+    TwoWayA(TwoWayB const&) { }
+};
+struct LvalConv {
+    operator int() & { return 1; }
+};
+struct RvalConv {
+    operator int() && { return 1; }
+};
+struct ConstLvalOnlyConv {
+    operator int() const& { return 1; }
+    operator int() && = delete;
+};
+struct DelFromInt { // the best constructor for an int argument is deleted, long is fine
+    DelFromInt(int) = delete;
+    DelFromInt(long) { }
+};
+struct ExplicitCopy { // copy constructor is explicit: T(t) works, T x = t does not
+    ExplicitCopy() = default;
+    explicit ExplicitCopy(ExplicitCopy const&) = default;
+};
+struct ConvToArrayRef {
+    using Arr = int[3];
+    operator Arr&() const;
+};
+struct ConvToFnPtr {
+    using Fn = void (*)();
+    operator Fn() const { return nullptr; }
+};
+struct ThrowingConvToInt {
+    operator int() const noexcept(false) { return 1; }
+};
+struct AssignFromIntOnly {
+    AssignFromIntOnly& operator=(int) { return *this; }
+};
+struct AssignReturnsVoid {
+    void operator=(int) { }
+};
+struct AssignRvalueOnly {
+    AssignRvalueOnly& operator=(int) && { return *this; }
+};
+// ---- boolean-testable proxies
+struct Verdict { // model of boolean-testable
+    operator bool() const { return true; }
+    bool operator!() const { return false; }
+};
+struct WeirdBool { // implicit conversion fine, static_cast<bool>(rvalue) picks the deleted explicit overload
+    operator bool() const { return true; }
+    explicit operator bool() = delete;
+    bool operator!() const { return false; }
+};
+struct ExplicitBool {
+    explicit operator bool() const { return true; }
+    bool operator!() const { return false; }
+};
+struct NotIsVoid {
+    operator bool() const { return true; }
+    void operator!() const { }
+};
+struct NotIsWeird {
+    operator bool() const { return true; }
+    WeirdBool operator!() const { return {}; }
+};
+struct NotIsVerdict {
+    operator bool() const { return true; }
+    Verdict operator!() const { return {}; }
+};
+struct LvalueOnlyBool {
+    operator bool() & { return true; }
+    bool operator!() & { return false; }
+};
+struct CmpVerdict {
+    friend Verdict operator==(CmpVerdict const&, CmpVerdict const&) { return {}; }
+    friend Verdict operator!=(CmpVerdict const&, CmpVerdict const&) { return {}; }
+};
+struct CmpWeird {
+    friend WeirdBool operator==(CmpWeird const&, CmpWeird const&) { return {}; }
+    friend WeirdBool operator!=(CmpWeird const&, CmpWeird const&) { return {}; }
+};
+struct CmpExplicitBool {
+    friend ExplicitBool operator==(CmpExplicitBool const&, CmpExplicitBool const&) { return {}; }
+    friend ExplicitBool operator!=(CmpExplicitBool const&, CmpExplicitBool const&) { return {}; }
+};
+struct CmpVoid {
+    friend void operator==(CmpVoid const&, CmpVoid const&) { }
+    friend void operator!=(CmpVoid const&, CmpVoid const&) { }
+};
+struct CmpEqOnlyBool { // != is the rewritten candidate
+    friend bool operator==(CmpEqOnlyBool const&, CmpEqOnlyBool const&) { return true; }
+};
+struct CmpNonConst { // only comparable as non-const lvalues
+    friend bool operator==(CmpNonConst&, CmpNonConst&) { return true; }
+    friend bool operator!=(CmpNonConst&, CmpNonConst&) { return false; }
+};
+struct CmpNeDeleted {
+    friend bool operator==(CmpNeDeleted const&, CmpNeDeleted const&) { return true; }
+    friend bool operator!=(CmpNeDeleted const&, CmpNeDeleted const&) = delete;
+};
+struct PredVerdict {
+    Verdict operator()(int, int) const { return {}; }
+};
+struct PredWeird {
+    WeirdBool operator()(int, int) const { return {}; }
+};
+struct PredExplicitBool {
+    ExplicitBool operator()(int, int) const { return {}; }
+};
+struct PredVoid {
+    void operator()(int, int) const { }
+};
+struct PredIntOnlyFirst { // callable with (int,int) but not with (int,Empty)/(Empty,int): relation needs all four
+    bool operator()(int, int) const { return true; }
+    bool operator()(int, Empty) const { return true; }
+};
+using FnPtr = void (*)();
 struct NoValue { }; // has no ::value (conjunction / disjunction short-circuit probes)
 enum E { e0, e1 };
 enum EU8 : unsigned char { eu0 };
@@ -272,6 +411,23 @@ inline int lam_capture_target   = 0;
 inline auto const lam_cap       = [p = &lam_capture_target](int x) { return *p + x; };
 using LambdaCap                 = decltype(lam_cap);
 } // namespace zoo
+
+// exposition-only concepts of [concept.booleantestable] / [concept.equalitycomparable], transcribed with std components
+namespace stdx {
+template <class T>
+concept boolean_testable_impl = std::convertible_to<T, bool>;
+template <class T>
+concept boolean_testable = boolean_testable_impl<T> && requires(T&& t) {
+    { !std::forward<T>(t) } -> boolean_testable_impl;
+};
+template <class T, class U>
+concept weakly_equality_comparable_with = requires(std::remove_reference_t<T> const& t, std::remove_reference_t<U> const& u) {
+    { t == u } -> boolean_testable;
+    { t != u } -> boolean_testable;
+    { u == t } -> boolean_testable;
+    { u != t } -> boolean_testable;
+};
+} // namespace stdx
 
 // ---------------------------------------------------------------------------------- cell record
 namespace c15 {
